@@ -109,6 +109,14 @@ def type_space(tier):
     extra = [('struct', tuple((f'f{i}', ('int32',)) for i in range(9))),
              ('tuple', tuple(('str',) if i % 2 else ('int64',) for i in range(9))),
              ('struct', tuple((f'f{i}', ('bool',)) for i in range(17)))]
+    from vf.props import c32
+
+    nine = ('struct', (('a', ('int32',)), ('b', ('str',)), ('c', ('float64',)), ('d', ('bool',)), ('e', ('int64',)),
+                       ('f', ('str',)), ('g', ('int32',)), ('h', ('call',)), ('i', ('str',)), ('j', ('int32',))))
+    wide = [nine, extra[0]]
+    extra += [nine] + [T for T in c32.wide_struct_types(tier) if T[0] != 'set' or hashable(T[1])]
+    for w in wide:
+        extra += [('array', w), ('dict', ('str',), w), ('tuple', (('int32',), w)), ('struct', (('s', w), ('k', ('int32',))))]
     reps = [('int32',), ('str',)]
     if tier == 'quick':
         d2 = list(constructions(d1, d1, reps)) + [t for t in constructions([], reps, d1)]
@@ -185,15 +193,48 @@ def has_nan(T, v):
     return any(has_nan(ft, x) for ft, x in zip(T[1], v))
 
 
-def values(T, frozen=False):
-    """Deterministic list of non-missing values of T.  `frozen`: hashable containers (set elements, dict keys)."""
-    key = (repr(T), frozen)
+def values(T, frozen=False, top=True):
+    """Deterministic list of non-missing values of T.  `frozen`: hashable containers (set elements, dict keys).
+    `top`: the value is the whole literal (structs then get every field permutation, nested ones a short selection)."""
+    key = (repr(T), frozen, top)
     if key not in _vals_cache:
-        _vals_cache[key] = _values(T, frozen)
+        _vals_cache[key] = _values(T, frozen, top)
     return _vals_cache[key]
 
 
-def _values(T, frozen):
+def _uniq(T, xs):
+    """Drop values equal (by name / canonical form) to an earlier one: a Python set or dict would collapse them."""
+    seen, out = set(), []
+    for x in xs:
+        k = repr(canon(T, x))
+        if k not in seen:
+            seen.add(k)
+            out.append(x)
+    return out
+
+
+def reordered(T, v):
+    """(fields in another order than declared somewhere, a plain dict used as a struct somewhere)"""
+    if v is None:
+        return (False, False)
+    k = T[0]
+    if k in LEAVES or k == 'ndarray':
+        return (False, False)
+    if k in ('array', 'set'):
+        parts = [reordered(T[1], x) for x in v]
+    elif k == 'interval':
+        parts = [reordered(T[1], v.start), reordered(T[1], v.end)]
+    elif k == 'dict':
+        parts = [reordered(T[1], a) for a in v] + [reordered(T[2], b) for b in v.values()]
+    elif k == 'struct':
+        parts = [(list(v) != [n for n, _ in T[1]], isinstance(v, dict))]
+        parts += [reordered(ft, v[n]) for n, ft in T[1]]
+    else:
+        parts = [reordered(ft, x) for ft, x in zip(T[1], v)]
+    return (any(p[0] for p in parts), any(p[1] for p in parts))
+
+
+def _values(T, frozen, top):
     import hail as hl
     import numpy as np
     from hailtop.frozendict import frozendict
@@ -225,7 +266,7 @@ def _values(T, frozen):
                 hl.Locus(cs[-1], min(17, rg.lengths[cs[-1]]), rg)]
     if k == 'interval':
         pt = hail_type(T[1])
-        ps = values(T[1], frozen)
+        ps = values(T[1], frozen, False)
         a, b = ps[0], ps[1 % len(ps)]
         out = [hl.Interval(a, b, i_s, i_e, point_type=pt) for i_s in (True, False) for i_e in (True, False)]
         out += [hl.Interval(None, b, True, False, point_type=pt), hl.Interval(a, None, False, True, point_type=pt),
@@ -234,7 +275,7 @@ def _values(T, frozen):
             out.append(hl.Interval(p, ps[(i + 3) % len(ps)], i % 2 == 0, i % 3 == 0, point_type=pt))
         return out
     if k == 'array':
-        es = values(T[1], frozen)
+        es = values(T[1], frozen, False)
         mk = frozenlist if frozen else list
         out = [mk([]), mk([None])]
         for ch in _chunks(es, 2):
@@ -249,7 +290,7 @@ def _values(T, frozen):
             out.append(mk([None] * 8 + [es[-1]]))
         return out
     if k == 'set':
-        es = [e for e in values(T[1], True) if not has_nan(T[1], e)]
+        es = _uniq(T[1], [e for e in values(T[1], True, False) if not has_nan(T[1], e)])
         mk = frozenset if frozen else set
         out = [mk(), mk([None])]
         for ch in _chunks(es, 2):
@@ -258,8 +299,8 @@ def _values(T, frozen):
             out.append(mk([None, es[0]]))
         return out
     if k == 'dict':
-        ks = [e for e in values(T[1], True) if not has_nan(T[1], e)]
-        vs = values(T[2], frozen)
+        ks = _uniq(T[1], [e for e in values(T[1], True, False) if not has_nan(T[1], e)])
+        vs = values(T[2], frozen, False)
         mk = frozendict if frozen else dict
         out = [mk({})]
         n = max(len(ks), len(vs), 1)
@@ -275,7 +316,7 @@ def _values(T, frozen):
     if k in ('struct', 'tuple'):
         fts = [ft for _, ft in T[1]] if k == 'struct' else list(T[1])
         names = [n for n, _ in T[1]] if k == 'struct' else None
-        doms = [values(ft, frozen) for ft in fts]
+        doms = [values(ft, frozen, False) for ft in fts]
 
         def mk(xs):
             return hl.Struct(**dict(zip(names, xs))) if k == 'struct' else tuple(xs)
@@ -296,6 +337,26 @@ def _values(T, frozen):
             row = [None] * len(fts)
             row[8] = doms[8][-1]
             out.append(mk(row))
+        if k == 'struct' and len(fts) >= 2:
+            # the same values with the fields in another order than the type declares (tstruct accepts any Mapping
+            # with the right names): hail Structs with permuted fields and, where hashing is not needed, plain dicts
+            from vf.props import c32
+
+            decl = list(out)
+            re_full, re_short = c32._reordered(list(T[1]), decl, frozen)
+            out = decl + (re_full if top else re_short)
+            if not top:
+                # nested selection: also one reversed value whose missing-field pattern is not symmetric, so that
+                # missing bits taken by position instead of by name show up one level down as well
+                def asym(v):
+                    m = [v[n] is None for n in names]
+                    return m != m[::-1]
+
+                part = next((v for v in decl if asym(v)), None)
+                if part is not None:
+                    out.append(hl.Struct(**{n: part[n] for n in reversed(names)}))
+                    if not frozen:
+                        out.append({n: part[n] for n in reversed(names)})
         return out
     if k == 'ndarray':
         et, nd = T[1][0], T[2]
@@ -634,7 +695,7 @@ def encode(t, v):
 def run_case(T, t, v):
     """-> (violation | None, info)   violation = (oracle, message)"""
     want = canon(T, v)
-    info = {}
+    info = {'want': want}
     try:
         b, via = encode(t, v)
     except Exception as ex:  # noqa: BLE001
@@ -676,24 +737,56 @@ def nontrivial(want):
     return "'NA'" in s or any(f"'{k}'" in s for k in ('s', 'arr', 'set', 'dict', 'nd'))
 
 
+def _widths(T):
+    """'9' if some struct in T has more than 8 fields (a second missing-bit byte)"""
+    return '9' if any(len(x[1]) > 8 for x in _structs(T)) else ''
+
+
+def _structs(T):
+    k = T[0]
+    if k in LEAVES:
+        return
+    if k in ('array', 'set', 'interval', 'ndarray'):
+        yield from _structs(T[1])
+    elif k == 'dict':
+        yield from _structs(T[1])
+        yield from _structs(T[2])
+    elif k == 'struct':
+        yield T
+        for _, ft in T[1]:
+            yield from _structs(ft)
+    else:
+        for ft in T[1]:
+            yield from _structs(ft)
+
+
 def _work(chunk):
     from vf import hailenv
 
     hailenv.install_dummy_context()
     res = {'evals': 0, 'nontrivial': 0, 'with_missing': 0, 'bytes': 0, 'viol': [], 'types': 0, 'fortran': 0,
+           'reordered': 0, 'dict_struct': 0, 'reordered_wide': 0,
            'via_literal': 0, 'etypes': set(), 'samples': [], 'max_bytes': 0}
     for T in chunk:
         t = hail_type(T)
         res['types'] += 1
         res['etypes'].add(repr(engine_etype(T)))
+        multi = any(len(x[1]) >= 2 for x in _structs(T))  # only such types can hold reordered struct values
+        wide = multi and _widths(T) == '9'
         for i, v in enumerate(values(T)):
             verdict, info = run_case(T, t, v)
             res['evals'] += 1
-            w = repr(canon(T, v))
-            if nontrivial(canon(T, v)):
+            w = repr(info['want'])
+            if "'NA'" in w or any(f"'{k}'" in w for k in ('s', 'arr', 'set', 'dict', 'nd')):  # == nontrivial(want)
                 res['nontrivial'] += 1
             if "'NA'" in w:
                 res['with_missing'] += 1
+            if multi:
+                ro, ds = reordered(T, v)
+                res['reordered'] += ro
+                res['dict_struct'] += ds
+                if ro and wide:
+                    res['reordered_wide'] += 1
             if T[0] == 'ndarray' and v.ndim > 1 and v.size > 1 and not v.flags['C_CONTIGUOUS']:
                 res['fortran'] += 1
             res['bytes'] += info.get('bytes', 0)
@@ -718,7 +811,7 @@ def check(tier, seed, procs):
     n_chunks = max(1, min(len(types), procs * 8))
     chunks = [types[i::n_chunks] for i in range(n_chunks)]
     rows = par.pmap(_work, par.rotate(chunks, seed), procs, chunksize=1)
-    tot = {k: sum(r[k] for r in rows) for k in ('evals', 'nontrivial', 'with_missing', 'bytes', 'types', 'fortran', 'via_literal')}
+    tot = {k: sum(r[k] for r in rows) for k in ('evals', 'nontrivial', 'with_missing', 'bytes', 'types', 'fortran', 'via_literal', 'reordered', 'dict_struct', 'reordered_wide')}
     etypes = set()
     for r in rows:
         etypes.update(r['etypes'])
@@ -746,10 +839,13 @@ def check(tier, seed, procs):
                       if tier == 'quick' else
                       'depth<=2 complete (binary constructors over all pairs of depth<=1 types); depth 3 = array / '
                       'struct / dict-value / tuple wrappers around every unary depth-2 type')
-                   + '; plus 9- and 17-field structs/tuples; values: per-type covering domains (see values())'),
+                   + '; plus 3/4/9/10/17-field structs (top level and one level inside array / dict value / tuple / struct / interval) and 9-field tuples; values: per-type covering domains (see values()), every struct with >= 2 fields also as hail Struct with permuted fields (all permutations up to 3 fields, reversed + one rotation beyond) and as plain dict in declared and permuted order (nested: reversed only)'),
         'types': tot['types'],
         'types_by_depth': {str(k): v for k, v in sorted(by_depth.items())},
         'cases_with_missing': tot['with_missing'],
+        'cases_with_struct_fields_in_another_order': tot['reordered'],
+        'cases_with_plain_dict_as_struct': tot['dict_struct'],
+        'reordered_cases_with_more_than_8_fields': tot['reordered_wide'],
         'noncontiguous_or_fortran_ndarrays': tot['fortran'],
         'encoded_via_hl_literal': tot['via_literal'],
         'encoded_bytes_total': tot['bytes'],
@@ -758,7 +854,8 @@ def check(tier, seed, procs):
         'engine_types_cross_checked_on_jvm': n_cross,
     }
     vac = None
-    if tot['with_missing'] == 0 or tot['fortran'] == 0 or tot['via_literal'] == 0 or len(etypes) < 10:
+    if (tot['with_missing'] == 0 or tot['fortran'] == 0 or tot['via_literal'] == 0 or len(etypes) < 10
+            or tot['reordered'] == 0 or tot['dict_struct'] == 0 or tot['reordered_wide'] == 0):
         vac = f'domain did not reach missing values / Fortran arrays / EncodedLiteral ({tot})'
     return {
         'coverage': cov,
